@@ -413,6 +413,45 @@ def run(ctx):
         label = mtype + ("" if store_history is None else f" store_history={store_history}")
         ctx.check(not problems and npaths > 0, "R19.4", uid, f"{label}: reply discipline on {npaths} paths",
                   msg=f"shell_handler for {label}: {sorted(set(problems))[:3]}", key=f"reply discipline {label}", node=hf, rel="jupyter_kernel.py", sample={"paths": npaths})
+    ctx.rule("R19.12", "execute requests: whatever the cell does - succeeds, raises, or yields a value whose repr() raises - the request is answered (no exception leaves "
+             "the handler: the listener would shut the whole session down) and the queued stdout is flushed (housekeeping handshake) before the idle status, so output "
+             "is never shown after idle nor stamped with the next request's header", floor=1)
+    header = DictV([(Const("msg_type"), Const("execute_request")), (Const("msg_id"), Const("req-1"))])
+    msg = DictV([(Const("header"), header), (Const("content"), DictV([(Const("code"), Const("x"))])), (Const("parent_header"), DictV(())), (Const("metadata"), DictV(()))])
+
+    def repr_(interp, node, args, kwargs, cfg, out):
+        out.add("raise", cfg.set("$exc", ExcV("ValueError", "repr of the cell's value")))
+        return [(cfg, Sym(("repr",)))]
+
+    helpers = {f"self.{u.node.name}" for u in program.methods("jupyter_kernel.py", "Kernel") if any(isinstance(n, ast.Attribute) and n.attr == "housekeep_q" for n in ast.walk(u.node))
+               and u.node.name not in ("shell_handler", "__init__", "housekeep_run")}
+    pol = FlowPolicy(program, events=["self.send", "self.housekeep_q.put"], may_raise_all=False, cancel=False, locals_=None, record_atoms=True, inline=helpers,
+                     summaries={"self.deserialize_wire_msg": lambda i, n, a, k, c, o: [(c, ListV([Sym(("identities",)), msg], "tuple"))],
+                                "self.ast_ctx.eval": lambda i, n, a, k, c, o: [(c, Sym(("result",)))], "repr": repr_,
+                                "handshake_q.get": lambda i, n, a, k, c, o: [(c, NONE)], "asyncio.Queue": lambda i, n, a, k, c, o: [(c, ObjV("hq", "Queue"))]})
+    pol.raising_labels = {"self.ast_ctx.parse"}
+    pol.loop_unroll = 1
+    heap = {"self.execution_count": Const(1), "self.iopub_socket": Sym(("iopub",)), "self.engine_id": Const("eng"), "self.parent_header": NONE}
+    out = run_flow(program, uid, pol, args={"self": ObjV("self", "Kernel"), "shell_socket": Sym(("shell",)), "wire_msg": Sym(("wire",))}, heap=heap)
+    problems, npaths = [], 0
+    for kind, c, desc in exits(out):
+        npaths += 1
+        if kind != "return":
+            problems.append(f"the handler leaves with {desc}: no reply, no idle, and shell_listen's catch-all queues the session shutdown")
+            continue
+        seq = []
+        for e in c.trace:
+            if e[0] == "call" and e[1] == "self.send":
+                cont = e[2][2] if len(e[2]) > 2 else None
+                st = cont.get(Const("execution_state")) if isinstance(cont, DictV) else None
+                seq.append("idle" if st == Const("idle") else (e[2][1].v if len(e[2]) > 1 and isinstance(e[2][1], Const) else "?"))
+            elif e[0] == "call" and e[1] == "self.housekeep_q.put":
+                seq.append("flush")
+        if "idle" not in seq or "flush" not in seq[:seq.index("idle")]:
+            problems.append(f"messages {seq}: the idle status is sent without flushing the queued stdout first")
+    ctx.check(not problems and npaths >= 3, "R19.12", uid, f"execute_request: answered and flushed on {npaths} paths",
+              msg=f"shell_handler, execute_request: {sorted(set(problems))[:3]}", key="execute answered and flushed", node=hf, rel="jupyter_kernel.py", sample={"paths": npaths})
+
     ctx.rule("R19.6", "a whole message reaches the transport in one write: concurrent senders on one socket (shell replies and stdout forwarding share iopub) cannot interleave frames", floor=4)
     for meth, arg, label in (("send_multipart", ListV([Const(b"a"), Const(b"bb" * 200), Const(b"")]), "three frames"), ("send_multipart", ListV([Const(b"only")]), "one frame"),
                              ("send", Const(b"payload"), "single-frame message with its delimiter"), ("send", Const(b"x" * 300), "long single-frame message")):
